@@ -18,13 +18,15 @@ def run(tier, seed, t0):
     data, meta = gen()
     out = os.path.join(vlib.BUILD, "work", PID)
     os.makedirs(out, exist_ok=True)
-    summ = json.loads(vlib.run_harness(["c17", data, out, seed]))
+    from props import c07
+    rows, _ = c07.split(c07.gen()[0])
+    summ = json.loads(vlib.run_harness(["c17", data, out, seed, rows]))
     events, mism, r = vlib.judge_trace("Trace_C17", os.path.join(out, "c17.events.ndjson"))
     v = vlib.Verdict(PID)
     for m in mism:
         e = events[m[1] - 1]
         v.violation({"property": PID, "event": {k: e[k] for k in e if k != "out"}, "why": m[2],
-                     "what": "%s built via %s serialises to %s : %s" % (json.dumps(e["tree"])[:300], e["via"], e["output"], m[2])})
+                     "what": "%s serialises to %s : %s" % ("%s built via %s" % (json.dumps(e["tree"])[:300], e["via"]) if e["op"] == "ser" else "Parse(%s)" % e["text"], e["output"], m[2])})
     rc = v.finish()
     cov = {
         "states": meta["distinct"] + r.distinct, "transitions": meta["generated"] + r.generated,
@@ -36,7 +38,8 @@ def run(tier, seed, t0):
                 "non-object and invalid texts that must be ignored), is serialised through JSON/String/MarshalJSON/AppendJSON(nil) and "
                 "AppendJSON(prefix) for 4 prefixes x 6 spare capacities; each serialisation is a trace event judged by Trace_C17 "
                 "(WriterSpec!WellFormed). distinct_nontrivial = distinct (object, members) serialisations" % summ["objects"],
-        "samples": [{k: events[len(events) // 3][k] for k in ("tree", "via", "output", "same4", "appendok", "prefixok", "valid")}],
+        "samples": [{k: events[10][k] for k in ("tree", "via", "output", "same4", "appendok", "prefixok", "valid")}],
+        "parsed_objects_serialised": summ["parsed_objects_serialised"],
         "serialisations_judged_by_tlc": len(events), "mismatches": len(mism),
     }
     vlib.write_evidence(PID, tier, seed, t0, cov, [vlib.TOOLS,
